@@ -1,5 +1,5 @@
 """C05 - A* and breadth-first search return valid minimum-cost / minimum-step paths."""
-from sim.core import Violation, Inconclusive, RandomProxy, patched_random
+from sim.core import InjectedAbort, Violation, Inconclusive, RandomProxy, patched_random
 from sim.models import nested_graph_variant, gen_graph_spec, GraphView, make_graph_mdp
 from sim.refsolve import dijkstra, cost_to_go
 from sim.ctx import RunCtx, make_scheduler, gen_sched
@@ -41,6 +41,8 @@ def gen_case(rng, tier, idx):
     cfg = dict(rep=rng.choice(REPS), heur=rng.choice(HEUR), tie=tb, rao=rao, seed=rng.choice((0, 1, 42, None)))
     if rng.random() < 0.1 and not plain_idx(idx):
         cfg['nest'] = rng.randrange(1000)
+    elif rng.random() < 0.08 and not plain_idx(idx):
+        cfg['abort'] = rng.randrange(1000)
     if spec.get('giant'):
         cfg['heur'] = 'zero'        # integer costs beyond 2**53: only integer arithmetic is exact, so no float-valued heuristic
     plain = idx % 4 == 0
@@ -54,7 +56,7 @@ def execute(case, script=None):
     gv = GraphView(case['spec'])
     ctx = RunCtx(PROP, None)
     ctx.declare_probes('no_plan', 'start_is_goal', 'zero_cost_edge_on_path', 'two_goals_reachable', 'infinite_heuristic_seen',
-                       'self_loop_present', 'random_tie_break', 'shuffled_actions', 'big_graph', 'path_longer_than_1000_steps', 'integer_rewards', 'costs_beyond_2_53', 'nested_run')
+                       'self_loop_present', 'random_tie_break', 'shuffled_actions', 'big_graph', 'path_longer_than_1000_steps', 'integer_rewards', 'costs_beyond_2_53', 'nested_run', 'rerun_after_abort', 'aborts_delivered')
     sched = make_scheduler(case, script, ctx)
     try:
         return _execute(se, gv, case['cfg'], ctx, sched)
@@ -106,6 +108,15 @@ def _execute(se, gv, cfg, ctx, sched):
                 except Exception as e:
                     raise Violation('exception', f"the search nested inside the heuristic raised {type(e).__name__}: {e}", dict(key=f"exception/nested-run/{type(e).__name__}"))
             return inner_hv(s)
+    abox = dict(n=0, k=None)
+    plain_hv = hv
+
+    def hv(s):
+        abox['n'] += 1
+        if abox['k'] is not None and abox['n'] >= abox['k']:
+            abox['k'] = None
+            raise InjectedAbort()
+        return plain_hv(s)
     d = dijkstra(gv)
     du = dijkstra(gv, unit=True)
     best = min([d[g] for g in gv.goals if g in d], default=None)
@@ -134,8 +145,20 @@ def _execute(se, gv, cfg, ctx, sched):
         with patched_random([se], proxy):
             try:
                 if alg == 'astar':
-                    r = se.AStarSearch(heuristic_value=hv, seed=seed, randomize_action_order=cfg['rao'],
-                                       tie_breaking_strategy=cfg['tie']).plan_on(m)
+                    planner = se.AStarSearch(heuristic_value=hv, seed=seed, randomize_action_order=cfg['rao'],
+                                             tie_breaking_strategy=cfg['tie'])
+                    if cfg.get('abort') is not None:
+                        # fault F6: a first search with the SAME planner and model objects dies with an exception thrown from
+                        # the user's heuristic at its k-th call
+                        ctx.probe('rerun_after_abort')
+                        abox['k'] = abox['n'] + 1 + cfg['abort'] % 15
+                        try:
+                            planner.plan_on(m)
+                        except InjectedAbort:
+                            ctx.probe('aborts_delivered')
+                            sched.fire('F6_abort_and_rerun')
+                        abox['k'] = None
+                    r = planner.plan_on(m)
                 else:
                     r = se.BreadthFirstSearch(seed=seed, randomize_action_order=cfg['rao']).plan_on(m)
             except (Violation, Inconclusive):
